@@ -19,7 +19,9 @@ import PcbV.Gen.CasTypes
 
   `fixed : Bool` selects the repaired `_flush_record_buffer` (`<= 255`, pending fix C29-last-record)
   or the original one (`< 255`, defect D10); `skipBody : Bool` selects the repaired `_search`
-  (plays past the records of a skipped file, pending fix C29-skip-body) or the original one.
+  (plays past the records of a skipped file, pending fix C29-skip-body) or the original one;
+  `rel : Bool` selects the repaired end-of-tape handling of `_search` (closes the stream, pending fix
+  C29-timeout-release) or the original one (stream stays open: every later OPEN is File already open).
 -/
 namespace PcbV.Cassette
 open PcbV
@@ -265,15 +267,17 @@ def nameMatches (req : Bytes) (types : Bytes) (trunk : Bytes) (ft : Nat) : Bool 
   (req.isEmpty || rstrip trunk == rstrip req) && (types.isEmpty || types.contains ft)
 
 /-- `CASDevice._search`; fuel = number of records ahead + 1 (each turn passes at least one record).
-    Always returns the state (after Device Timeout the tape is rewound and `isOpen` keeps the value
-    the last `open_read` left). -/
-def search (skipBody : Bool) : Nat → St → Bytes → Bytes → List Msg × St × R Hdr
+    Always returns the state.  After Device Timeout the tape is rewound; `rel = true` is the repaired
+    code, which also closes the stream (pending fix C29-timeout-release); with `rel = false` (original)
+    `isOpen` keeps the value the last `open_read` left, i.e. true as soon as one header was passed. -/
+def search (skipBody rel : Bool) : Nat → St → Bytes → Bytes → List Msg × St × R Hdr
   | 0, s, _, _ => ([], s, .error unmodelled)
   | f+1, s, req, types =>
     match openRead s with
     | .error e =>
       if e == endOfTape then
-        ([], { s with ahead := s.done ++ s.ahead, done := [], buf := [], complete := false, writing := false },
+        ([], { s with ahead := s.done ++ s.ahead, done := [], buf := [], complete := false, writing := false,
+                      isOpen := if rel then false else s.isOpen },
           .error Gen.E.device_timeout)
       else ([], s, .error e)
     | .ok (s1, h) =>
@@ -285,17 +289,17 @@ def search (skipBody : Bool) : Nat → St → Bytes → Bytes → List Msg × St
           match read s1 none with
           | .error e => ([m], s1, .error e)
           | .ok (_, s2) =>
-            let r := search skipBody f s2 req types
+            let r := search skipBody rel f s2 req types
             (m :: r.1, r.2.1, r.2.2)
         else
-          let r := search skipBody f s1 req types
+          let r := search skipBody rel f s1 req types
           (m :: r.1, r.2.1, r.2.2)
 
 /-- `CASDevice.open(mode 'I')` -/
-def openInput (skipBody : Bool) (s : St) (req types : Bytes) : List Msg × St × R Hdr :=
+def openInput (skipBody rel : Bool) (s : St) (req types : Bytes) : List Msg × St × R Hdr :=
   if s.isOpen then ([], s, .error Gen.E.file_already_open)
   else if req.any (· < 32) then ([], s, .error Gen.E.bad_file_number)
-  else search skipBody (s.ahead.length + 1) s req types
+  else search skipBody rel (s.ahead.length + 1) s req types
 
 /-! ### whole files (used by the theorems and by the driver) -/
 
